@@ -271,12 +271,20 @@ fn execute(prog: Program) -> Outcome {
     }
     // the request's session is gone: no connection counted, no watcher left
     sleep_ms(5);
+    let ran_use_db = prog.cmds.iter().any(|c| matches!(c, Cmd::UseDbOk | Cmd::UseDbUser));
     {
         let map = dbs.map.read().unwrap();
         if let Some(db) = map.get(&"hdb".to_string()) {
             let c = db.connections_count();
             if c != 0 {
                 out.violations.push(Violation::new("session-not-released", "connections".to_string(), format!("body {:?}: {} connections still counted on hdb after the request ended", body, c)));
+            }
+            // ... and the published counter says the same (what other clients and watchers see)
+            let published = db.get_value("$connections".to_string()).map(|v| v.value);
+            if let Some(p) = published {
+                if p.trim() != "0" && ran_use_db {
+                    out.violations.push(Violation::new("session-not-released", "published-counter".to_string(), format!("body {:?}: $connections of hdb reads {:?} after the request ended", body, p)));
+                }
             }
             let wm = db.watchers.map.read().unwrap();
             let left: usize = wm.values().map(|v| v.len()).sum();
